@@ -257,6 +257,13 @@ def run_case(case, res):
                                 return False
                         desc = f"{op}(array-like of {k})"
                         (l.extend if op == "extend" else l.pre_extend)(_Arr(ps))
+                    elif a % 7 == 4 and op == "pre_extend" and 1 <= n <= 40:
+                        # the list is its own source: every old element is prepended while the walk goes on through the old part
+                        # (terminates: nothing is added behind the walker)
+                        k = n
+                        ps = [payload_of[id(m)] for m in model]
+                        desc = f"pre_extend(the list itself, {n} elements)"
+                        l.pre_extend(l)
                     elif a % 5 == 4:
                         # the payloads come from another DoublyLinkedList (an iterable like any other): afterwards the two
                         # lists share nothing - the source is intact and changing it does not show in this list
